@@ -416,8 +416,9 @@ def _ulp_eq(a, b):
 
 def mon_c06(ctx, rec):
     out = []
-    st = ctx.state.setdefault("c06", {"season": None, "B": 0.0, "irr": {}, "harvest": {}, "started": set()})
-    ins = ctx.in_season(rec)
+    st = ctx.state.setdefault("c06", {"season": None, "B": 0.0, "irr": {}, "harvest": {}, "last": {}, "started": set()})
+    # "in season" as the daily tables say it (days after planting > 0): the property is about the summary agreeing with them
+    ins = gr(rec, "dap") > 0
     if not ins:
         st["season"] = None
         return out
@@ -444,11 +445,12 @@ def mon_c06(ctx, rec):
         out.append(("C06:potential-yield", f"day t={rec.t}: YieldPot={yp!r} != B_ns/100*HI={(Bns / 100.0) * gr(rec, 'harvest_index')!r}"))
     st["season"], st["B"] = k, B
     st["irr"][k] = st["irr"].get(k, 0.0) + fx(rec, "IrrDay")
+    # the season's last in-season day so far: its harvest day if the season reaches harvest
+    st["last"][k] = {"t": rec.t, "date": (rec.date + pd.Timedelta(days=1)).strftime("%Y-%m-%d"), "dry": dy, "fresh": fy, "pot": yp}
     f1 = rec.flags1
-    ended = bool(f1["crop_mature"]) or bool(f1["crop_dead"]) or (rec.date + pd.Timedelta(days=1) == ctx.harvest[k])
-    if ended and k not in st["harvest"]:
-        st["harvest"][k] = {"t": rec.t, "date": (rec.date + pd.Timedelta(days=1)).strftime("%Y-%m-%d"), "dry": dy, "fresh": fy, "pot": yp,
-                            "irr": st["irr"][k]}
+    ended = bool(f1["crop_mature"]) or bool(f1["crop_dead"]) or (rec.date + pd.Timedelta(days=1) >= ctx.harvest[k])
+    if ended:
+        st["harvest"][k] = True
     return out
 
 
@@ -464,11 +466,11 @@ def final_c06(ctx, tables):
         return out
     for r in rows:
         idx, season, cname, hdate, hstep, dry, fresh, pot, irr = r
-        e = exp[season]
+        e = dict(st["last"][season], irr=st["irr"][season])
         if idx != season:
             out.append(("C06:summary-index", f"summary row index {idx} != season {season}"))
         if hstep != e["t"]:
-            out.append(("C06:summary-step", f"season {season}: harvest step {hstep} != step of the harvest day {e['t']}"))
+            out.append(("C06:summary-step", f"season {season}: harvest step {hstep} != step of the season's last in-season day {e['t']} (the harvest day)"))
         if hdate != e["date"]:
             out.append(("C06:summary-date", f"season {season}: harvest date {hdate} != day after the harvest step {e['date']}"))
         for name, a, b in (("dry", dry, e["dry"]), ("fresh", fresh, e["fresh"]), ("potential", pot, e["pot"])):
